@@ -91,7 +91,7 @@ CHECKS = {
    ref="5/C10"),
  "C11": dict(
    technique="runtime monitoring: round-trip differential on stores reached by seeded histories - hooked dump of all stores, id maps, reverse indices and position indices compared entry by entry between the saved and the loaded store, plus observation with handles, search answers and re-serialisation to JSON",
-   text="Final states of seeded histories (gaps, protect_text, all selector kinds) are saved as CBOR and loaded again (shrink_to_fit on/off); the dumps of every index must be equal entry by entry, the canonical observation including handles and every reverse lookup must be equal, segmentation/find_text/related_text answers must be equal and both stores must serialise to the same STAM JSON. Held on the stores observed.",
+   text="Final states of seeded histories (gaps, protect_text, all selector kinds) are saved as CBOR and loaded again (shrink_to_fit on/off); the dumps of every index must be equal entry by entry, the canonical observation including handles and every reverse lookup must be equal, segmentation/find_text/related_text answers and the rows of 8 seeded queries must be equal and both stores must serialise to the same STAM JSON. Held on the stores observed.",
    note="Trusted: the dump hook; run-time state (changed flags, serialize-mode cell, caller-supplied debug/shrink settings) is excluded as documented.",
    ref="5/C11"),
  "C12": dict(
